@@ -67,12 +67,14 @@ Print Assumptions reads_forward_consistency.
 
 (* The request-level model the oracle replays: in every history and configuration a
    HIGHER_CONSISTENCY request -- and every request that passes through no cache -- is predicted to
-   return exactly the reference answer (so a deviation is reported, see replay_verdict_hi). *)
+   return exactly the reference answer (so a deviation is reported, see replay_verdict_hi); when the
+   driver made the datastore fail during the request, the reference answer or an error, never another
+   (cached) decision. *)
 Theorem replay_higher_exact :
   forall (c : rcfg) (h : list rop) (st : rstate) (r : rreq) (p : prediction),
     In (r, p) (predictions c st h) ->
     rq_hi r = true \/ caches_on c (rq_api r) = false ->
-    p = PExact (rq_ref r).
+    p = if rq_fault r then PExactOrError (rq_ref r) else PExact (rq_ref r).
 Proof. exact replay_hi_exact. Qed.
 Print Assumptions replay_higher_exact.
 
@@ -122,5 +124,7 @@ Proof. exact reads_not_vacuous. Qed.
 Example replay_higher_exact_nonvacuous :
   map snd (predictions ex_rcfg rs0 ex_hist) = [PExact 1; PExact 1; PAnyAnswer; PExact 0; PExact 0]%N /\
   replay ex_rcfg rs0 ex_hist = [0; 0; 0; 0; 0]%N /\
-  replay ex_rcfg rs0 [RReq (mkReq 0 false 7 1 1 []); RWrite; RReq (mkReq 0 true 7 0 1 [])] = [0; 2]%N.
+  replay ex_rcfg rs0 [RReq (mkReq 0 false 7 1 1 [] false); RWrite; RReq (mkReq 0 true 7 0 1 [] false)] = [0; 2]%N /\
+  replay ex_rcfg rs0 [RReq (mkReq 0 false 7 1 1 [] false); RWrite; RReq (mkReq 0 true 7 0 5 [] true);
+                      RReq (mkReq 0 true 7 0 0 [] true); RReq (mkReq 0 true 7 0 1 [] true)] = [0; 0; 0; 2]%N.
 Proof. exact ex_replay. Qed.
